@@ -6,6 +6,7 @@
 set -u
 WT=$1; SD=$(realpath "$2"); LOG=$SD/confirm.log
 export CARGO_NET_OFFLINE=true
+export CARGO_TARGET_DIR=$(realpath "$1")/target
 cd "$WT" || exit 2
 git checkout -q -- . ; git clean -fdq -e target -e seed_demo 2>/dev/null
 rm -rf seed_demo; cp -r "$SD/demo" seed_demo; [ -f seed_demo/Cargo.lock ] || cp Cargo.lock seed_demo/Cargo.lock
